@@ -479,3 +479,152 @@ func LowerAll(ls []Label) {
 		ls[i].Name = strings.ToLower(ls[i].Name)
 	}
 }
+
+// AddReverse adds, for some existing converters, a converter going the other
+// way (outputs become inputs), which creates dependency cycles.
+func (b *Builder) AddReverse(p int) {
+	g := b.G
+	n := len(b.Sc.Convs)
+	for i := 0; i < n && len(b.Sc.Convs) < 8; i++ {
+		c := b.Sc.Convs[i]
+		if len(c.In) == 0 || len(c.Out) == 0 || !g.Pct(p) {
+			continue
+		}
+		r := FuncSpec{ID: b.NewID(), InForm: FormStruct, OutForm: FormStruct, HasErr: g.Pct(b.Opts.ErrP)}
+		for _, l := range c.Out {
+			l.Dyn = l.Type
+			if sideOK(r.In, l, r.InForm, false, false) {
+				r.In = append(r.In, l)
+			}
+		}
+		for _, l := range c.In {
+			l = withDyn(g, l)
+			if sideOK(r.Out, l, r.OutForm, true, false) {
+				r.Out = append(r.Out, l)
+			}
+		}
+		if len(r.Out) == 0 {
+			continue
+		}
+		if g.Pct(50) && len(r.In) > 1 {
+			r.In = r.In[:1]
+		}
+		b.AddConv(r)
+	}
+}
+
+// GenGens draws 0-2 converter generators over the palette.
+func GenGens(g G, pal Palette, allowErr bool) []GenSpec {
+	var gs []GenSpec
+	for i, n := 0, g.Int(0, 2); i < n; i++ {
+		modes := []string{"conv", "conv", "conv", "nil"}
+		if allowErr {
+			modes = append(modes, "err")
+		}
+		c := pal.concrete()
+		gs = append(gs, GenSpec{ID: i + 1, From: Pick(g, c), To: Pick(g, c), Mode: Pick(g, modes)})
+	}
+	return gs
+}
+
+var malformedKinds = []string{"nilarg", "nilnamed", "niltyped", "nilnamedsub", "niltypedsub", "nilconv", "intconv", "strconv", "nilconvfunc"}
+
+// GenNasty draws scenarios from the classes other profiles avoid (C06).
+func GenNasty(g G) *Scenario {
+	pal := GenPalette(g, true, true)
+	o := DefaultFuncOpts()
+	o.AllowPosRepeat = true
+	o.AllowOnce = true
+	o.FailP = 15
+	b := NewBuilder(g, pal, o)
+	class := g.Int(0, 5)
+	switch class {
+	case 0: // uniform with repeated positional types
+		b.Sc.Target = GenTarget(g, pal, 4, o)
+		b.Distract(4, 6)
+	case 1: // derivable multi-input, plus reverse converters (cycles)
+		b.Sc.Target = GenTarget(g, pal, 3, o)
+		for _, p := range b.Sc.Target.In {
+			b.Produce(p, g.Int(1, 3), 3)
+		}
+		b.AddReverse(60)
+		b.Distract(2, 2)
+	case 2: // mutually recursive multi-input converters
+		c := pal.concrete()
+		x, y, z := Pick(g, c), Pick(g, c), Pick(g, c)
+		lab := func(t int) Label {
+			l := Label{Type: t, Dyn: t}
+			if g.Pct(40) {
+				l.Name = Pick(g, pal.Names)
+			}
+			l.Sub = pal.sub(g)
+			return l
+		}
+		lx, ly, lz := lab(x), lab(y), lab(z)
+		mk := func(in []Label, out Label) FuncSpec {
+			fs := FuncSpec{ID: b.NewID(), InForm: FormStruct, OutForm: FormStruct, HasErr: g.Bool()}
+			for _, l := range in {
+				if sideOK(fs.In, l, fs.InForm, false, false) {
+					fs.In = append(fs.In, l)
+				}
+			}
+			fs.Out = []Label{out}
+			return fs
+		}
+		b.AddConv(mk([]Label{lx, ly}, lz))
+		b.AddConv(mk([]Label{lx, lz}, ly))
+		if g.Pct(50) {
+			b.AddConv(mk([]Label{ly, lz}, lx))
+		}
+		if g.Pct(60) {
+			b.AddInput(lx)
+		}
+		b.Sc.Target = FuncSpec{ID: TargetID, InForm: FormStruct, OutForm: FormPos, In: []Label{Pick(g, []Label{ly, lz})}}
+		if g.Pct(40) {
+			b.Distract(2, 2)
+		}
+	case 3: // converter with the same signature as the target
+		b.Sc.Target = GenTarget(g, pal, 2, o)
+		same := b.Sc.Target
+		same.ID = b.NewID()
+		same.Built = false
+		if same.InForm == "" {
+			same.InForm = FormPos
+		}
+		for i := range same.Out {
+			same.Out[i] = withDyn(g, same.Out[i])
+		}
+		b.AddConv(same)
+		b.Distract(3, 3)
+	case 4: // typed-with-subtype next to a named parameter of the same type
+		t := Pick(g, pal.concrete())
+		sub := Pick(g, AllSubs)
+		b.Sc.Target = FuncSpec{ID: TargetID, InForm: FormStruct, OutForm: FormPos,
+			In: []Label{{Name: Pick(g, pal.Names), Type: t, Dyn: t, Sub: Pick(g, []string{"", sub})}, {Type: t, Dyn: t, Sub: sub}}}
+		if g.Pct(50) {
+			b.Sc.Target.In = append(b.Sc.Target.In, Label{Type: t, Dyn: t})
+		}
+		for _, p := range b.Sc.Target.In {
+			if g.Pct(70) {
+				b.Produce(p, g.Int(0, 2), 2)
+			}
+		}
+		b.Distract(3, 3)
+	default: // everything derivable, deep
+		b.Sc.Target = GenTarget(g, pal, 3, o)
+		for _, p := range b.Sc.Target.In {
+			b.Produce(p, g.Int(2, 4), 2)
+		}
+		b.AddReverse(30)
+	}
+	if g.Pct(35) {
+		b.Sc.Gens = GenGens(g, pal, true)
+	}
+	if g.Pct(30) {
+		for i, n := 0, g.Int(1, 2); i < n; i++ {
+			b.Sc.Malformed = append(b.Sc.Malformed, Malformed{Kind: Pick(g, malformedKinds), Pos: g.Int(0, 6)})
+		}
+	}
+	b.ShuffleInputs()
+	return b.Sc
+}
